@@ -202,8 +202,10 @@ Definition impl_suback_code_ok (b : N) : bool := code_in [0; 1; 2; 128; 131; 135
 (* mod.rs:1060-1073 convert_311_encoding_to_suback_reason_code (the value is kept) *)
 Definition impl_suback311_code_ok (b : N) : bool := code_in [0; 1; 2; 128] b.
 
-(* mod.rs:1112-1131 UnsubackReasonCode::try_from — NOTE 144 (TopicNameInvalid), and no 143 *)
-Definition impl_unsuback_code_ok (b : N) : bool := code_in [0; 17; 128; 131; 135; 144; 145] b.
+(* mod.rs:1118-1139 UnsubackReasonCode::try_from.  143 (TopicFilterInvalid) was added by fix commit
+   4bdb294; 144 (TopicNameInvalid, not an UNSUBACK code of the specification) is still accepted for
+   API compatibility: the implementation is more lenient than the specification on this one value. *)
+Definition impl_unsuback_code_ok (b : N) : bool := code_in [0; 17; 128; 131; 135; 143; 144; 145] b.
 
 (* mod.rs:1173-1187 AuthenticateReasonCode::try_from *)
 Definition impl_auth_code_ok (b : N) : bool := code_in [0; 24; 25] b.
